@@ -155,7 +155,6 @@ func main() {
 			os.Exit(2)
 		}
 		env.Replay = doc.Replay
-		env.Verbose = true
 	}
 	rep := &Report{Property: *prop, Tier: *tier, Shard: env.Shard, NShards: env.NShards, Exhaustive: true}
 	t0 := time.Now()
